@@ -32,6 +32,7 @@ fn run(a: &[String]) -> String {
         "frame_depth" => scenarios::frame_depth(&a[1], &a[2]),
         "handler_flag" => scenarios::handler_flag(&a[1], a[2] == "true"),
         "has_storage_layer" => scenarios::has_storage_layer(&a[1]),
+        "inspector_balance" => scenarios::inspector_balance(),
         "evm_leak" => scenarios::evm_leak(&a[1]),
         "transfer_sum" => scenarios::transfer_sum(&a[1]),
         "call_flag" => scenarios::call_flag(&a[1], a[2] == "true"),
